@@ -32,7 +32,9 @@ Uninflected == <<"bison", "sheep", "news", "series", "species", "equipment", "in
                  "people", "rice", "Maltese", "sea-bass", "chassis", "multimedia">>
 
 Styles == {"lower", "UPPER", "Title"}
-Prefixes == {"", "old", "x9", "Größe", "a b", "<NL>"}      \* <NL>: a prefix that contains a line break (concretised by the harness)
+(* <..>: prefixes concretised by the harness: a line break; runes whose lower-case form has another byte length (U+0130, U+212A Kelvin,
+   U+023A); a byte that is not valid UTF-8 *)
+Prefixes == {"", "old", "x9", "Größe", "a b", "<NL>", "<IDOT>", "<KELVIN>", "<ASTROKE>", "<BADUTF8>"}
 Boundaries == {" ", "-", ".", "/", "--", " - "}
 
 VARIABLE cs     \* the sequential case under test
